@@ -375,7 +375,9 @@ func labPol(e labEnv) {
 		var ops []rdnsOp
 		for k := 2 + r.intn(8); k > 0; k-- {
 			o := rdnsOp{addr: r.intn(2), kind: []int{0, 0, 1, 2, 2, 3}[r.intn(6)], val: int64(100 + r.intn(900))}
-			switch r.intn(5) {
+			switch r.intn(6) {
+			case 5:
+				o.dt = time.Duration(1+r.intn(4000)) * time.Millisecond // well inside any sensible lifetime
 			case 0:
 				o.dt = time.Hour + time.Duration(r.intn(3)) - 1 // around the DNS cache lifetime
 			case 1:
